@@ -9,13 +9,14 @@ F_DIA = "quantarhei/spectroscopy/diagramatics.py"
 X3 = [numpy.array([1.0, 0.0, 0.0]), numpy.array([0.0, 1.0, 0.0]), numpy.array([0.0, 0.0, 1.0])]
 
 
-def pathway_prefactor(cx, e, d, sides=(1, 1, 1, 1)):
+def pathway_prefactor(cx, e, d, sides=(1, 1, 1, 1), lab=None):
     """prefactor computed by the real LabSetup and the real liouville_pathway object for pulse /
     detection polarisations e[0..3] and transition dipoles d[0..3]"""
     import quantarhei as qr
     from quantarhei.spectroscopy.diagramatics import liouville_pathway
-    with cx.concrete():
-        lab = qr.LabSetup()
+    if lab is None:
+        with cx.concrete():
+            lab = qr.LabSetup()
     lab.set_pulse_polarizations(pulse_polarizations=(e[0], e[1], e[2]), detection_polarization=e[3])
     rho0 = numpy.zeros((1, 1))
     rho0[0, 0] = 1.0
@@ -312,3 +313,23 @@ def calculator_signal_bookkeeping(cx, types):
 
 def types_ns(i, t):
     return types.SimpleNamespace(idx=i, pathway_type=t)
+
+
+@harness("C12", "lab_reuse",
+         quick=[dict()], thorough=[dict()],
+         functions=[F_LAB + ":LabSetup.set_pulse_polarizations", F_DIA + ":liouville_pathway.orientational_averaging"],
+         bound="one LabSetup object given a first and then a second, different, arbitrary polarisation four-tuple "
+               "(both symbolic): the prefactor of a pathway with arbitrary dipoles computed after the second call "
+               "equals the one computed with a fresh LabSetup holding the second four-tuple",
+         out="")
+def lab_reuse(cx):
+    import quantarhei as qr
+    d = [cx.real_array("d%d" % i, 3) for i in range(4)]
+    e1 = [cx.real_array("e%d" % i, 3) for i in range(4)]
+    e2 = [cx.real_array("f%d" % i, 3) for i in range(4)]
+    with cx.concrete():
+        lab = qr.LabSetup()
+    first = pathway_prefactor(cx, e1, d, lab=lab)
+    cx.prove_eq("first_use_is_fresh", first, pathway_prefactor(cx, e1, d), tol=1e-9)
+    second = pathway_prefactor(cx, e2, d, lab=lab)
+    cx.prove_eq("second_use_is_fresh", second, pathway_prefactor(cx, e2, d), tol=1e-9)
